@@ -33,6 +33,8 @@ fn verify_layout_signatures(
 fn verify_layout_expiration(layout: &LayoutMetadata) -> Result<()> {
     let time = layout.expires;
     let now = chrono::Utc::now();
+    #[cfg(in_toto_verif)]
+    let now = crate::verif::now_override().unwrap_or(now);
     if time < now {
         return Err(Error::VerificationFailure("layout expired".to_string()));
     }
@@ -157,6 +159,8 @@ fn verify_link_signature_thresholds_step(
             if link_metablock.verify(1, authorized_key).is_ok() {
                 metablocks
                     .insert(signer_key_id.clone(), link_metablock.clone());
+                #[cfg(in_toto_verif)]
+                crate::verif::emit(serde_json::json!({"ev": "link_counted", "step": step.name, "key": signer_key_id}));
             }
         }
         // in-toto v0.9's signature doesn't have a cert field,
@@ -372,6 +376,8 @@ fn reduce_chain_links(
                 })?
                 .clone(),
         );
+        #[cfg(in_toto_verif)]
+        crate::verif::emit(serde_json::json!({"ev": "reduced", "step": k, "n": v.len()}));
         Ok(())
     })?;
 
@@ -405,6 +411,8 @@ fn run_all_inspections(
     for inspect in &layout.inspect {
         let cmd_args: Vec<&str> =
             inspect.run.as_ref().iter().map(|arg| &arg[..]).collect();
+        #[cfg(in_toto_verif)]
+        crate::verif::emit(serde_json::json!({"ev": "inspect_start", "name": inspect.name()}));
 
         let metablock = in_toto_run(
             inspect.name(),
@@ -428,6 +436,8 @@ fn run_all_inspections(
         };
 
         inspection_links.insert(inspect.name().to_string(), link_metadata);
+        #[cfg(in_toto_verif)]
+        crate::verif::emit(serde_json::json!({"ev": "inspect_done", "name": inspect.name()}));
     }
 
     Ok(inspection_links)
@@ -521,27 +531,41 @@ pub fn in_toto_verify(
         }
     };
 
+    #[cfg(in_toto_verif)]
+    crate::verif::emit(serde_json::json!({"ev": "stage", "name": "layout_sig", "dir": link_dir}));
     // Verify layout expiration date
     verify_layout_expiration(&layout)?;
+    #[cfg(in_toto_verif)]
+    crate::verif::emit(serde_json::json!({"ev": "stage", "name": "expiry", "dir": link_dir}));
 
     // Load metadata files for steps of layout
     let steps_links_metadata = load_links_for_layout(&layout, link_dir)?;
+    #[cfg(in_toto_verif)]
+    crate::verif::emit(serde_json::json!({"ev": "stage", "name": "load_links", "dir": link_dir}));
 
     // Verify signatures and signature thresholds for steps of layout
     let link_files =
         verify_link_signature_thresholds(&layout, steps_links_metadata)?;
+    #[cfg(in_toto_verif)]
+    crate::verif::emit(serde_json::json!({"ev": "stage", "name": "link_sigs", "dir": link_dir}));
 
     // Verify sublayouts recursively
     let link_files = verify_sublayouts(&layout, link_files, link_dir)?;
+    #[cfg(in_toto_verif)]
+    crate::verif::emit(serde_json::json!({"ev": "stage", "name": "sublayouts", "dir": link_dir}));
 
     // Verify command alignment for steps of layout (only warns)
     verify_all_steps_command_alignment(&layout, &link_files)?;
 
     // Verify threshold
     verify_threshold_constraints(&layout, &link_files)?;
+    #[cfg(in_toto_verif)]
+    crate::verif::emit(serde_json::json!({"ev": "stage", "name": "agreement", "dir": link_dir}));
 
     // Reduce link files
     let mut reduced_link_files = reduce_chain_links(link_files)?;
+    #[cfg(in_toto_verif)]
+    crate::verif::emit(serde_json::json!({"ev": "stage", "name": "reduce", "dir": link_dir}));
 
     let steps = layout
         .steps
@@ -550,9 +574,13 @@ pub fn in_toto_verify(
         .collect();
     // Verify artifact rules for steps of layout
     verify_all_item_rules(&steps, &reduced_link_files)?;
+    #[cfg(in_toto_verif)]
+    crate::verif::emit(serde_json::json!({"ev": "stage", "name": "step_rules", "dir": link_dir}));
 
     // Execute inspection commands (generates link metadata for each inspection)
     let inspection_link_files = run_all_inspections(&layout)?;
+    #[cfg(in_toto_verif)]
+    crate::verif::emit(serde_json::json!({"ev": "stage", "name": "inspections", "dir": link_dir}));
     reduced_link_files.extend(inspection_link_files);
 
     let inspects = layout
@@ -563,6 +591,8 @@ pub fn in_toto_verify(
 
     // Verify artifact rules for inspections of layout
     verify_all_item_rules(&inspects, &reduced_link_files)?;
+    #[cfg(in_toto_verif)]
+    crate::verif::emit(serde_json::json!({"ev": "stage", "name": "inspect_rules", "dir": link_dir}));
 
     get_summary_link(&layout, &reduced_link_files, step_name.unwrap_or(""))
 }
